@@ -39,6 +39,7 @@ from mashumaro.core.meta.helpers import (
     get_literal_values,
     get_name_error_name,
     get_type_annotations,
+    get_type_origin,
     hash_type_args,
     is_annotated,
     is_class_var,
@@ -282,6 +283,13 @@ class CodeBuilder:
             if not module:
                 continue
             self.ensure_module_imported(module)
+            if module.__name__ == "builtins":
+                # e.g. types.MappingProxyType: its name ("mappingproxy") is
+                # rendered as a builtin but is not one
+                origin = get_type_origin(t)
+                name = getattr(origin, "__qualname__", None)
+                if name and not hasattr(module, name):
+                    self.ensure_object_imported(origin, name)
             if is_literal(t):
                 literal_args = get_literal_values(t)
                 self.add_type_modules(*literal_args)
